@@ -131,6 +131,7 @@ int disasm_pic18(
           value = opcode & 0xff;
           opcode = memory->read16(address + 2);
           value |= (opcode & 0xfff) << 8;
+          value <<= 1;   // the field holds the word address
 
           snprintf(instruction, length, "%s 0x%04x%s",
             table_pic18[n].instr,
@@ -144,6 +145,7 @@ int disasm_pic18(
           value = opcode & 0xff;
           opcode = memory->read16(address + 2);
           value |= (opcode & 0xfff) << 8;
+          value <<= 1;   // the field holds the word address
 
           snprintf(instruction, length, "%s 0x%04x",
             table_pic18[n].instr,
